@@ -87,9 +87,10 @@ notes=open(os.path.join(src,'notes.md')).read() if os.path.exists(os.path.join(s
 meta['needs_to_manifest']=notes[:1500]
 if ok:
     os.makedirs(dst, exist_ok=True)
-    shutil.copy(patch, os.path.join(dst,'patch.diff'))
-    for d in demos: shutil.copy(os.path.join(src,d), os.path.join(dst,d))
-    if notes: open(os.path.join(dst,'notes.md'),'w').write(notes)
+    if os.path.realpath(src) != os.path.realpath(dst):
+        shutil.copy(patch, os.path.join(dst,'patch.diff'))
+        for d in demos: shutil.copy(os.path.join(src,d), os.path.join(dst,d))
+        if notes: open(os.path.join(dst,'notes.md'),'w').write(notes)
     # merge with earlier meta (other tiers/checks)
     mp=os.path.join(dst,'meta.json')
     if os.path.exists(mp):
